@@ -73,6 +73,9 @@ def corpus():
                           ("linear", {"rescale": False}), ("cubic", {"rescale": True}), ("chain-trend-spline", {}), ("vector-of", {}),
                           ("chain-trend-knn", {})):
         cs.append(mk_exact(which, es, ns, [9], [d, d[::-1]], params, "corpus-" + which))
+    di = [float(rng.randint(-40, 40)) for _ in es]
+    for which in ("chain-trend-knn", "chain-trend-spline", "vector-of", "knn", "linear"):
+        cs.append(mk_exact(which, es, ns, [9], [di, di[::-1]], {"rescale": False} if which == "linear" else {}, "corpus-intdata-" + which))
     return cs
 
 
@@ -95,6 +98,8 @@ def generate(rng, tier):
         es, ns = pts(rng, npts, scale, offset)
         shape2d = [npts] if (npts % 2 or rng.random() < 0.6) else [2, npts // 2]
         data = [[rng.randint(-64, 64) / 4.0 for _ in es] for _ in range(2)]
+        if rng.random() < 0.2:      # integer-valued data, handed over with an integer dtype (see impl)
+            data = [[float(rng.randint(-64, 64)) for _ in es] for _ in range(2)]
         which = rng.choice(["spline", "spline", "vector", "knn", "linear", "cubic", "chain-trend-spline", "vector-of", "chain-trend-knn"])
         params = {"spline": {"mindist": rng.choice([0, 0, 1e-3 * scale, scale])},
                   "vector": {"poisson": rng.choice([-1.0, -0.5, 0.0, 0.5, 1.0]), "mindist": rng.choice([0.5, 2.0, 8.0]) * scale},
@@ -137,6 +142,8 @@ def impl(case):
             g, ncomp = build(which, params)
             coords = (C.mkarr(es, shape2d, case["op"]), C.mkarr(ns, shape2d, case["op"]))
             d = tuple(C.mkarr(x, shape2d, case["op"]) for x in data[:ncomp])
+            if all(float(v).is_integer() for x in data[:ncomp] for v in x):
+                d = tuple(np.asarray(x).astype("int64") for x in d)      # "all finite data values": also integer-typed ones
             g.fit(coords, d[0] if ncomp == 1 else d)
             pred = g.predict(coords)
             pred = (pred,) if ncomp == 1 else pred
